@@ -1,7 +1,7 @@
 """Input streams for the v2 parser, the TLV iterator and the auto-detecting parser (DESIGN 5.3).
 Every stream function has the signature f(tier, rng, k, n) and yields (stream, bytes-expression, meta);
 shard k of n enumerates only its share of a deterministic stream."""
-from .lib import Rng, SIG, FAM_SIZE, be16, v2_fixed, enc_tlv, expr, fill, hx
+from .lib import Rng, SIG, FAM_SIZE, be16, v2_fixed, enc_tlv, expr, fill, hx, special_ip6, special_ip4
 
 LENGTH_TABLE = [0, 11, 12, 13, 35, 36, 37, 215, 216, 217, 255, 256, 257, 65535]
 VALID_VC = [0x20, 0x21]
@@ -121,6 +121,13 @@ def valid_header(rng, fam=None, big=False):
     addr = rng.bytes(FAM_SIZE[fam])
     if rng.chance(1, 8):
         addr = bytes([rng.choice([0, 255, 1])]) * FAM_SIZE[fam]
+    elif fam == 2 and rng.chance(1, 3):
+        # structured IPv6 values: mapped / compatible / loopback ..., both or only one of the two
+        a = special_ip6(rng) if rng.chance(3, 4) else rng.bytes(16)
+        b = special_ip6(rng) if rng.chance(3, 4) else rng.bytes(16)
+        addr = a + b + rng.bytes(4)
+    elif fam == 1 and rng.chance(1, 4):
+        addr = special_ip4(rng) + special_ip4(rng) + rng.bytes(4)
     if big:
         total = rng.choice([65535, 65534, 65535 - 3, 40000])
         room = total - len(addr)
